@@ -47,14 +47,16 @@ class NormalizationLayer(Model):
         super().__init__(input_space=domain.space, output_space=domain.space)
         self.normalize = nn.Linear(domain.space.dim, domain.space.dim)
 
-        box = domain.bounding_box()
+        # (transformed domains return the box with a leading row axis)
+        box = torch.as_tensor(domain.bounding_box()).reshape(-1)
         mins = box[::2]
         maxs = box[1::2]
 
         # compute width and center
         diag = []
         bias = []
-        for i in range(domain.dim):
+        # one entry per coordinate axis (domain.dim is smaller for boundaries)
+        for i in range(domain.space.dim):
             diag.append(maxs[i] - mins[i])
             bias.append((maxs[i] + mins[i]) / 2)
 
